@@ -9,13 +9,14 @@ RULE = (
     "histories; distinct = hash of the case tuple; trivial = single-node non-children call"
 )
 ASSUMPTIONS = [
+    "re-entrant hooks are exercised only in the restricted form 'a _pre_attach/_pre_detach hook of a parent assignment detaches another child of its parent argument'; the expected effect is the composition of the nested and the outer call",
     "LightNodeMixin classes are not given non-node arguments (nothing is claimed for them)",
     "refused calls are compared on exception class only (their post-state is C03's business)",
 ]
 GATES = [
     "mon.C02.model", "C02.expected.ok", "C02.expected.noop", "C02.expected.TreeError", "C02.expected.LoopError",
     "move.leaving_2plus_siblings", "move.between_trees", "setchildren.steals_from_other_parent",
-    "setchildren.reorders_or_keeps_some", "setchildren.takes_descendant", "ctor.cases",
+    "setchildren.reorders_or_keeps_some", "setchildren.takes_descendant", "ctor.cases", "mon.C02.reentrant",
 ]
 MONITORS = ("C02",)
 
